@@ -479,7 +479,19 @@ def _run_harness_forked(args, solo):
     part = par.Part()
     mk = _ops_factory(specs)
     pll = 4 if any(isinstance(sp, dict) and sp.get("op") == "numeric" for sp in specs) else None
-    for ch, results, steps, pre, log in sched.explore_forked(mk, bound, opcode, readback=True, per_line_limit=pll):
+    forked = sched.explore_forked(mk, bound, opcode, readback=True, per_line_limit=pll)
+    while True:
+        try:
+            ch, results, steps, pre, log = next(forked)
+        except StopIteration:
+            break
+        except report.HarnessError as e:
+            if "Hang" not in str(e):
+                raise
+            part.violation(f"{name.split(':')[0]}:threads-hang",
+                           {"kind": "c14hang", "harness": name, "ops": specs, "opcode": opcode},
+                           "every call returns", str(e)[:300])
+            break
         results, after = results
         part.count((name, "forked", ch.answers), nontrivial=pre > 0)
         part.stat("scheduling_steps_executed", sum(steps))
